@@ -5,7 +5,7 @@ cd "$(dirname "$0")/.."
 pat="${1:-}"
 ok=0; bad=0
 for d in seeded/*${pat}*/; do
-  n=$(basename "$d"); p=${n%%_*}; p=${p%%r[0-9]}
+  n=$(basename "$d"); p=${n%%_*}; p=${p%%r[0-9]*}
   out=$(tools/try_patch.sh "$d/patch.diff" "$p" quick 2>&1); rc=$?
   nv=$(echo "$out" | grep -c "^VIOLATION")
   if [ $rc = 1 ] && [ $nv -gt 0 ]; then ok=$((ok+1)); v=caught; else bad=$((bad+1)); v="MISSED(rc=$rc)"; fi
